@@ -70,4 +70,43 @@ CHECKS = {
         note="Not decided: standard_system_dimensions' squarest-factor "
              "search. Trusted: the tile description at the top of "
              "rules/C19.py."),
+    "C17": dict(
+        technique="effect / mutation analysis: origin-tracking dataflow "
+                  "(parameter depth, fresh, module-level) with callee "
+                  "summaries, flag partitioning and allow-lists",
+        text="For all 327 parameters of public functions/methods in "
+             "rig.place_and_route, rig.routing_table, rig.netlist, "
+             "rig.bitfield, rig.utils.contexts, rig.geometry, rig.links, "
+             "struct_file: no in-place mutation of an argument down to two "
+             "levels inside it, directly or via resolved callees (R1); "
+             "module-level mutables written only by the one allow-listed "
+             "memo (R2); no mutable default mutated or retained (R3); RNG "
+             "draws only on the caller's generator (R4); no evidently-"
+             "container argument retained by reference, also through "
+             "constructors (R5). Tests compare a few before/after values; "
+             "this covers every path.",
+        note="Not decided: order-dependence through hashing/iteration order "
+             "of user objects; aliasing through objects of non-rig classes. "
+             "Assumes rig functions return objects that do not alias their "
+             "arguments except as modelled (copies, elements, iterators). "
+             "Allow-lists (8 symbols) carry a written reason each."),
+    "C20": dict(
+        technique="effect analysis (no leaking options) + CFG dominance / "
+                  "must-pass-through for the datagram order + Fourier-"
+                  "Motzkin proof of the announced block count + constant "
+                  "folding of offsets and formats",
+        text="Options of one boot() call cannot leak: no function of "
+             "boot.py/struct_file.py mutates an argument, the shared "
+             "default or module state (R1). Start precedes all blocks, end "
+             "follows on every path; announced count proved = "
+             "ceil(len/1024) with the constant the loop slices by; blocks "
+             "numbered 0,1,.. in bits 7:0 under the asserted bound (R2). "
+             "The splice writes exactly buf[384:512] from packed[:128] "
+             "taken after both default updates, and the updated structs are "
+             "returned (R3). Header '!H4I' order and the <I -> !I word swap "
+             "(R4). The suite never runs the real boot().",
+        note="Not decided: timing, boot ROM acceptance; that the loop's "
+             "iteration count equals the announced count is argued from the "
+             "head/tail slice structure, not by a machine-checked "
+             "invariant. Assumes assert statements are enabled."),
 }
